@@ -46,6 +46,9 @@ PreSym(o) == CASE o = "neg" -> "-" [] o = "not" -> "!" [] o = "notw" -> "not "
 \* kinds whose text extends to the right as far as possible
 OpenRight(t) == t.k \in {"if", "lam", "asg"}
 IsBinT(t)    == t.k = "bin"
+RECURSIVE FlatHasPipe(_)
+FlatHasPipe(t) == /\ IsBinT(t) /\ Level(t.o) = 1
+                  /\ (t.o \in {"via", "into", "where"} \/ FlatHasPipe(t.l))
 NeedsParensR(parent, child, pos) ==
   CASE parent.k = "bin" ->
          \/ OpenRight(child)
@@ -57,8 +60,8 @@ NeedsParensR(parent, child, pos) ==
     [] parent.k = "fact" -> IsBinT(child) \/ OpenRight(child) \/ child.k = "un"
     [] parent.k \in {"call", "idx", "dot"} ->
          pos = "target" /\ (IsBinT(child) \/ OpenRight(child) \/ child.k = "un")
-    \* a lambda body may not have via / into / where at its top level
-    [] parent.k = "lam"  -> IsBinT(child) /\ child.o \in {"via", "into", "where"}
+    \* a lambda body may not have via / into / where at its flat top level (the left spine of level-1 operators)
+    [] parent.k = "lam"  -> FlatHasPipe(child)
     [] parent.k = "spread" -> IsBinT(child) \/ OpenRight(child)
     [] OTHER -> FALSE
 
